@@ -1,8 +1,356 @@
-(* Aspen/KVJoin.v — proofs: supersedes is the strict lexicographic order; ingest is an LWW join. *)
+(* Aspen/KVJoin.v — proofs: supersedes is the strict lexicographic order on (version, leaseholder);
+   ingestion through filterPersist is a last-writer-wins join: idempotent, insensitive to order,
+   duplication and batching; it never replaces an entry by an older one. *)
 From stdpp Require Import gmap.
 From Coq Require Import NArith ZArith Lia.
 From Synnax Require Import Aspen.KV.
 Local Open Scope N_scope.
+Arguments supersedes : simpl never.
+
+(* ---------- the order ---------- *)
+Definition op_lt (a b : op) : Prop :=
+  (o_ver a < o_ver b)%Z \/ (o_ver a = o_ver b /\ o_lh a < o_lh b).
+Definition same_pos (a b : op) : Prop := o_ver a = o_ver b /\ o_lh a = o_lh b.
+Definition op_le (a b : op) : Prop := op_lt a b \/ same_pos a b.
+
+Lemma supersedes_some d o : supersedes (Some d) o = true <-> op_lt d o.
+Proof.
+  unfold supersedes, op_lt.
+  destruct (Z.eqb_spec (o_ver o) (o_ver d)) as [E|E].
+  - rewrite N.ltb_lt. split; [intros H; right; split; [lia|exact H]|intros [H|[_ H]]; [lia|exact H]].
+  - rewrite Z.ltb_lt. split; [intros H; left; exact H|intros [H|[H _]]; [exact H|lia]].
+Qed.
+
+Lemma supersedes_none o : supersedes None o = true.
+Proof. reflexivity. Qed.
 
 Lemma supersedes_irrefl o : supersedes (Some o) o = false.
 Proof. unfold supersedes. rewrite Z.eqb_refl. apply N.ltb_irrefl. Qed.
+
+Lemma op_lt_irrefl a : ~ op_lt a a.
+Proof. unfold op_lt. lia. Qed.
+Lemma op_lt_trans a b c : op_lt a b -> op_lt b c -> op_lt a c.
+Proof. unfold op_lt. lia. Qed.
+Lemma op_lt_asym a b : op_lt a b -> ~ op_lt b a.
+Proof. unfold op_lt. lia. Qed.
+Lemma op_lt_total a b : op_lt a b \/ same_pos a b \/ op_lt b a.
+Proof. unfold op_lt, same_pos. lia. Qed.
+Lemma op_le_refl a : op_le a a.
+Proof. right. split; reflexivity. Qed.
+Lemma op_le_trans a b c : op_le a b -> op_le b c -> op_le a c.
+Proof. unfold op_le, op_lt, same_pos. lia. Qed.
+Lemma op_le_antisym a b : op_le a b -> op_le b a -> same_pos a b.
+Proof. unfold op_le, op_lt, same_pos. lia. Qed.
+Lemma op_lt_le a b : op_lt a b -> op_le a b.
+Proof. left. assumption. Qed.
+Lemma not_supersedes_le d o : supersedes (Some d) o = false -> op_le o d.
+Proof.
+  intros H. destruct (op_lt_total d o) as [L|[S|L]].
+  - apply supersedes_some in L. congruence.
+  - right. destruct S. split; congruence.
+  - left. exact L.
+Qed.
+
+(* ---------- one key ---------- *)
+Definition best (cur : option op) (o : op) : option op :=
+  if supersedes cur o then Some o else cur.
+
+(* [above r o]: the register holds something at least as new as o *)
+Definition above (r : option op) (o : op) : Prop :=
+  match r with Some m => op_le o m | None => False end.
+
+Lemma best_above cur o : above (best cur o) o.
+Proof.
+  unfold best. destruct cur as [d|]; simpl.
+  - destruct (supersedes (Some d) o) eqn:E; simpl.
+    + apply op_le_refl.
+    + apply not_supersedes_le. exact E.
+  - apply op_le_refl.
+Qed.
+
+Lemma best_keeps_above cur o x : above cur x -> above (best cur o) x.
+Proof.
+  unfold best. destruct cur as [d|]; simpl; [|tauto].
+  intros H. destruct (supersedes (Some d) o) eqn:E; simpl; [|exact H].
+  apply supersedes_some in E. eapply op_le_trans; [exact H|]. left. exact E.
+Qed.
+
+Lemma fold_best_keeps_above l : forall cur x, above cur x -> above (fold_left best l cur) x.
+Proof. induction l as [|o l IH]; simpl; intros cur x H; [exact H|]. apply IH, best_keeps_above, H. Qed.
+
+Lemma fold_best_above l : forall cur o, In o l -> above (fold_left best l cur) o.
+Proof.
+  induction l as [|a l IH]; simpl; intros cur o H; [tauto|].
+  destruct H as [->|H]; [|apply IH; exact H].
+  apply fold_best_keeps_above, best_above.
+Qed.
+
+Lemma fold_best_origin l : forall cur,
+  fold_left best l cur = cur \/ exists o, In o l /\ fold_left best l cur = Some o.
+Proof.
+  induction l as [|a l IH]; simpl; intros cur; [left; reflexivity|].
+  destruct (IH (best cur a)) as [E|(o & Hin & E)].
+  - rewrite E. unfold best. destruct (supersedes cur a); [right; exists a; split; [left; reflexivity|reflexivity]|left; reflexivity].
+  - right. exists o. split; [right; exact Hin|exact E].
+Qed.
+
+(* the register only moves up, and keeps its content at an equal position *)
+Lemma fold_best_mono l : forall d, exists d', fold_left best l (Some d) = Some d' /\ (d' = d \/ op_lt d d').
+Proof.
+  induction l as [|a l IH]; simpl; intros d; [exists d; split; [reflexivity|left; reflexivity]|].
+  unfold best at 2. destruct (supersedes (Some d) a) eqn:E.
+  - destruct (IH a) as (d' & -> & H). exists d'. split; [reflexivity|]. right.
+    apply supersedes_some in E. destruct H as [->|H]; [exact E|eapply op_lt_trans; eassumption].
+  - apply IH.
+Qed.
+
+Lemma fold_best_none_nil l : fold_left best l None = None -> l = [].
+Proof.
+  destruct l as [|a l]; [reflexivity|]. simpl. unfold best at 2. simpl. intros H.
+  destruct (fold_best_mono l a) as (d' & E & _). congruence.
+Qed.
+
+Lemma fold_best_app l1 l2 cur : fold_left best (l1 ++ l2) cur = fold_left best l2 (fold_left best l1 cur).
+Proof. apply fold_left_app. Qed.
+
+(* a redelivered operation changes nothing *)
+Lemma best_id cur o : above cur o -> best cur o = cur.
+Proof.
+  unfold best, above. destruct cur as [d|]; [|tauto]. intros H.
+  destruct (supersedes (Some d) o) eqn:E; [|reflexivity].
+  apply supersedes_some in E. exfalso. unfold op_le, op_lt, same_pos in *. lia.
+Qed.
+
+Lemma fold_best_id l : forall cur, (forall o, In o l -> above cur o) -> fold_left best l cur = cur.
+Proof.
+  induction l as [|a l IH]; simpl; intros cur H; [reflexivity|].
+  rewrite best_id by (apply H; left; reflexivity). apply IH. intros o Ho. apply H. right. exact Ho.
+Qed.
+
+(* ---------- the engine ---------- *)
+Definition ingest_eng (e : engine) (b : list op) : engine := (ingest e b).1.1.
+Definition accepted (e : engine) (b : list op) : list op := (ingest e b).1.2.
+Definition rejected (e : engine) (b : list op) : list op := (ingest e b).2.
+
+Lemma ingest_cons e o r :
+  ingest e (o :: r) =
+  if supersedes (e !! o_key o) o
+  then (ingest_eng (<[o_key o := o]> e) r, o :: accepted (<[o_key o := o]> e) r, rejected (<[o_key o := o]> e) r)
+  else (ingest_eng e r, accepted e r, o :: rejected e r).
+Proof.
+  unfold ingest_eng, accepted, rejected. simpl.
+  destruct (supersedes (e !! o_key o) o).
+  - destruct (ingest (<[o_key o:=o]> e) r) as [[e' a] j]. reflexivity.
+  - destruct (ingest e r) as [[e' a] j]. reflexivity.
+Qed.
+
+Lemma ingest_eng_cons e o r :
+  ingest_eng e (o :: r) = ingest_eng (if supersedes (e !! o_key o) o then <[o_key o := o]> e else e) r.
+Proof. unfold ingest_eng at 1. rewrite ingest_cons. destruct (supersedes (e !! o_key o) o); reflexivity. Qed.
+
+Definition at_key (k : N) (l : list op) : list op := filter (fun o => o_key o = k) l.
+
+Lemma ingest_eng_lookup b : forall e k, ingest_eng e b !! k = fold_left best (at_key k b) (e !! k).
+Proof.
+  induction b as [|o r IH]; intros e k; [reflexivity|].
+  rewrite ingest_eng_cons, IH. unfold at_key. rewrite filter_cons.
+  destruct (decide (o_key o = k)) as [<-|Hne]; simpl.
+  - unfold best. destruct (supersedes (e !! o_key o) o); [rewrite lookup_insert|]; reflexivity.
+  - destruct (supersedes (e !! o_key o) o); [rewrite lookup_insert_ne by exact Hne|]; reflexivity.
+Qed.
+
+(* batching does not matter *)
+Lemma ingest_eng_app b1 : forall e b2, ingest_eng (ingest_eng e b1) b2 = ingest_eng e (b1 ++ b2).
+Proof.
+  induction b1 as [|o r IH]; intros e b2; [reflexivity|].
+  rewrite <- app_comm_cons, !ingest_eng_cons. apply IH.
+Qed.
+
+Definition ingest_all (e : engine) (bs : list (list op)) : engine := fold_left ingest_eng bs e.
+
+Lemma ingest_all_concat bs : forall e, ingest_all e bs = ingest_eng e (concat bs).
+Proof.
+  induction bs as [|b bs IH]; intros e; [reflexivity|].
+  simpl. unfold ingest_all in *. simpl. rewrite IH, ingest_eng_app. reflexivity.
+Qed.
+
+Lemma in_at_key k l o : In o (at_key k l) <-> In o l /\ o_key o = k.
+Proof. unfold at_key. rewrite <- !elem_of_list_In, elem_of_list_filter. tauto. Qed.
+
+(* never replaced by an older one *)
+Lemma ingest_monotone e b k d :
+  e !! k = Some d -> exists d', ingest_eng e b !! k = Some d' /\ (d' = d \/ op_lt d d').
+Proof. intros H. rewrite ingest_eng_lookup, H. apply fold_best_mono. Qed.
+
+(* every delivered operation is dominated by the entry of its key afterwards *)
+Lemma ingest_above e b o : In o b -> above (ingest_eng e b !! o_key o) o.
+Proof. intros H. rewrite ingest_eng_lookup. apply fold_best_above, in_at_key. split; [exact H|reflexivity]. Qed.
+
+(* where an entry comes from *)
+Lemma ingest_origin e b k x :
+  ingest_eng e b !! k = Some x -> e !! k = Some x \/ (In x b /\ o_key x = k).
+Proof.
+  rewrite ingest_eng_lookup. intros H.
+  destruct (fold_best_origin (at_key k b) (e !! k)) as [E|(o & Hin & E)].
+  - left. congruence.
+  - right. apply in_at_key in Hin. rewrite H in E. injection E as ->. exact Hin.
+Qed.
+
+(* idempotence: redelivering a batch changes nothing (no coherence needed) *)
+Lemma ingest_redeliver e b :
+  (forall o, In o b -> above (e !! o_key o) o) -> ingest_eng e b = e.
+Proof.
+  intros H. apply map_eq. intros k. rewrite ingest_eng_lookup. apply fold_best_id.
+  intros o Ho. apply in_at_key in Ho as [Ho <-]. apply H, Ho.
+Qed.
+
+Lemma ingest_idempotent e b : ingest_eng (ingest_eng e b) b = ingest_eng e b.
+Proof. apply ingest_redeliver. intros o Ho. apply ingest_above, Ho. Qed.
+
+(* ---------- same set, any order / duplication / batching => same engine ---------- *)
+(* coherence: one (key, version, leaseholder) names one operation *)
+Definition coherent (P : op -> Prop) : Prop :=
+  forall a b, P a -> P b -> o_key a = o_key b -> same_pos a b -> a = b.
+
+Definition eng_op (e : engine) (o : op) : Prop := e !! o_key o = Some o.
+Definition keyed (e : engine) : Prop := forall k o, e !! k = Some o -> o_key o = k.
+
+Lemma ingest_keyed e b : keyed e -> keyed (ingest_eng e b).
+Proof.
+  intros K k o H. apply ingest_origin in H as [H|[_ H]]; [apply K in H|]; exact H.
+Qed.
+
+Theorem ingest_same_set e l1 l2 :
+  keyed e ->
+  (forall o, In o l1 <-> In o l2) ->
+  coherent (fun o => eng_op e o \/ In o l1) ->
+  ingest_eng e l1 = ingest_eng e l2.
+Proof.
+  intros K Hset Hcoh. apply map_eq. intros k.
+  destruct (ingest_eng e l1 !! k) as [m1|] eqn:E1; destruct (ingest_eng e l2 !! k) as [m2|] eqn:E2.
+  - f_equal.
+    assert (P1 : eng_op e m1 \/ In m1 l1).
+    { apply ingest_origin in E1 as [H|[H _]]; [left|right; exact H]. unfold eng_op. rewrite (K _ _ H). exact H. }
+    assert (P2 : eng_op e m2 \/ In m2 l1).
+    { apply ingest_origin in E2 as [H|[H _]]; [left|right; apply Hset; exact H]. unfold eng_op. rewrite (K _ _ H). exact H. }
+    assert (K1 : o_key m1 = k) by (eapply ingest_keyed; eauto).
+    assert (K2 : o_key m2 = k) by (eapply ingest_keyed; eauto).
+    apply Hcoh; [exact P1|exact P2|congruence|].
+    apply op_le_antisym.
+    + (* m1 <= m2: m1 is in e or l2, hence dominated by the result of l2 *)
+      rewrite ingest_eng_lookup in E2.
+      destruct P1 as [H|H].
+      * unfold eng_op in H. rewrite K1 in H. rewrite H in E2.
+        pose proof (fold_best_keeps_above (at_key k l2) (Some m1) m1 (op_le_refl m1)) as A. rewrite E2 in A. exact A.
+      * pose proof (fold_best_above (at_key k l2) (e !! k) m1) as A.
+        rewrite E2 in A. apply A, in_at_key. split; [apply Hset; exact H|exact K1].
+    + rewrite ingest_eng_lookup in E1.
+      destruct P2 as [H|H].
+      * unfold eng_op in H. rewrite K2 in H. rewrite H in E1.
+        pose proof (fold_best_keeps_above (at_key k l1) (Some m2) m2 (op_le_refl m2)) as A. rewrite E1 in A. exact A.
+      * pose proof (fold_best_above (at_key k l1) (e !! k) m2) as A.
+        rewrite E1 in A. apply A, in_at_key. split; [exact H|exact K2].
+  - exfalso. rewrite ingest_eng_lookup in E1, E2.
+    destruct (e !! k) as [d|] eqn:Ek.
+    + destruct (fold_best_mono (at_key k l2) d) as (d' & E & _). congruence.
+    + apply fold_best_none_nil in E2.
+      destruct (fold_best_origin (at_key k l1) None) as [E|(o & Hin & _)]; [congruence|].
+      apply in_at_key in Hin as [Hin Hk].
+      assert (In o (at_key k l2)) as X by (apply in_at_key; split; [apply Hset; exact Hin|exact Hk]).
+      rewrite E2 in X. exact X.
+  - exfalso. rewrite ingest_eng_lookup in E1, E2.
+    destruct (e !! k) as [d|] eqn:Ek.
+    + destruct (fold_best_mono (at_key k l1) d) as (d' & E & _). congruence.
+    + apply fold_best_none_nil in E1.
+      destruct (fold_best_origin (at_key k l2) None) as [E|(o & Hin & _)]; [congruence|].
+      apply in_at_key in Hin as [Hin Hk].
+      assert (In o (at_key k l1)) as X by (apply in_at_key; split; [apply Hset; exact Hin|exact Hk]).
+      rewrite E1 in X. exact X.
+  - reflexivity.
+Qed.
+
+(* the engine entry of a key is THE maximum of what was delivered (plus what was there) *)
+Theorem ingest_is_max e l k m :
+  ingest_eng e l !! k = Some m ->
+  (e !! k = Some m \/ (In m l /\ o_key m = k)) /\
+  (forall o, In o l -> o_key o = k -> op_le o m) /\
+  (forall d, e !! k = Some d -> op_le d m).
+Proof.
+  intros H. split; [apply ingest_origin, H|]. rewrite ingest_eng_lookup in H. split.
+  - intros o Ho Hk. pose proof (fold_best_above (at_key k l) (e !! k) o) as A. rewrite H in A.
+    apply A, in_at_key. split; assumption.
+  - intros d Hd. rewrite Hd in H.
+    pose proof (fold_best_keeps_above (at_key k l) (Some d) d (op_le_refl d)) as A. rewrite H in A. exact A.
+Qed.
+
+(* ---------- interleaving with unconditional applies (local writes, recovered operations) ---------- *)
+Inductive event :=
+| EBatch (b : list op)     (* a gossip batch through filterPersist *)
+| EForce (o : op).         (* persist / recovery: written without consulting the digest *)
+
+Definition ev_apply (e : engine) (ev : event) : engine :=
+  match ev with EBatch b => ingest_eng e b | EForce o => <[o_key o := o]> e end.
+Definition ev_ops (ev : event) : list op := match ev with EBatch b => b | EForce o => [o] end.
+Definition run_events (e : engine) (evs : list event) : engine := fold_left ev_apply evs e.
+
+(* the guard under which an unconditional apply is harmless: the written operation is the stored
+   one or supersedes it *)
+Definition force_ok (e : engine) (o : op) : Prop :=
+  e !! o_key o = Some o \/ supersedes (e !! o_key o) o = true.
+Fixpoint forces_ok (e : engine) (evs : list event) : Prop :=
+  match evs with
+  | [] => True
+  | ev :: r => match ev with EForce o => force_ok e o | EBatch _ => True end /\ forces_ok (ev_apply e ev) r
+  end.
+
+Lemma force_is_ingest e o : force_ok e o -> <[o_key o := o]> e = ingest_eng e [o].
+Proof.
+  intros [H|H]; rewrite ingest_eng_cons; unfold ingest_eng; simpl.
+  - rewrite H, supersedes_irrefl. apply insert_id, H.
+  - rewrite H. reflexivity.
+Qed.
+
+Lemma run_events_is_ingest evs : forall e, forces_ok e evs ->
+  run_events e evs = ingest_eng e (concat (map ev_ops evs)).
+Proof.
+  induction evs as [|ev r IH]; intros e H; [reflexivity|].
+  destruct H as [H1 H2]. simpl. unfold run_events in *. simpl. rewrite (IH _ H2).
+  destruct ev as [b|o]; simpl.
+  - apply ingest_eng_app.
+  - rewrite (force_is_ingest _ _ H1). apply (ingest_eng_app [o]).
+Qed.
+
+Theorem events_same_set e evs1 evs2 :
+  keyed e -> forces_ok e evs1 -> forces_ok e evs2 ->
+  (forall o, In o (concat (map ev_ops evs1)) <-> In o (concat (map ev_ops evs2))) ->
+  coherent (fun o => eng_op e o \/ In o (concat (map ev_ops evs1))) ->
+  run_events e evs1 = run_events e evs2.
+Proof.
+  intros K F1 F2 Hset Hcoh. rewrite !run_events_is_ingest by assumption.
+  apply ingest_same_set; assumption.
+Qed.
+
+(* an unconditional apply that meets the guard does not move the entry down *)
+Lemma force_monotone e o k d :
+  force_ok e o -> e !! k = Some d ->
+  exists d', <[o_key o := o]> e !! k = Some d' /\ (d' = d \/ op_lt d d').
+Proof.
+  intros F H. rewrite (force_is_ingest _ _ F). apply ingest_monotone, H.
+Qed.
+
+(* ---------- accepted / rejected ---------- *)
+Lemma accepted_rejected_split b : forall e o, In o b <-> In o (accepted e b) \/ In o (rejected e b).
+Proof.
+  induction b as [|a r IH]; intros e o.
+  - unfold accepted, rejected. simpl. tauto.
+  - unfold accepted, rejected in *. rewrite ingest_cons.
+    destruct (supersedes (e !! o_key a) a); simpl.
+    + rewrite (IH (<[o_key a:=a]> e) o). unfold accepted, rejected. tauto.
+    + rewrite (IH e o). unfold accepted, rejected. tauto.
+Qed.
+
+(* a rejected operation lost to what was stored: the node holds at least that *)
+Lemma rejected_above b : forall e o, In o (rejected e b) -> above (ingest_eng e b !! o_key o) o.
+Proof.
+  intros e o H. apply ingest_above. apply (accepted_rejected_split b e o). right. exact H.
+Qed.
